@@ -289,6 +289,52 @@ def _with_generated(axioms, prop):
     return axioms
 
 
+def _module_imports(mod):
+    f = LEAN_DIR / (mod.replace('.', '/') + '.lean')
+    if not f.exists():
+        return []
+    return re.findall(r'^import\s+(Rbql(?:\.\w+)+)\s*$', f.read_text(), re.M)
+
+
+def theorem_modules_closure(prop):
+    """the theorem modules of a property and every Rbql module they import, transitively (models, specs, proofs)"""
+    todo = ['Rbql.Theorems.' + p.stem for p in _theorem_files() if re.search(r'^theorem\s+' + prop + r'_', strip_lean_comments(p.read_text()), re.M)]
+    seen = []
+    while todo:
+        m = todo.pop()
+        if m in seen:
+            continue
+        seen.append(m)
+        todo.extend(_module_imports(m))
+    return sorted(seen)
+
+
+def leanchecker(prop):
+    """thorough tier: re-check the compiled theorem modules of the property (and everything of this project they depend on) with the
+    toolchain's independent checker; results are cached per module under lean/.lake, keyed by the hash of the sources"""
+    mods = theorem_modules_closure(prop)
+    cache = LEAN_DIR / '.lake' / 'verif_leanchecker_cache.json'
+    key = _sources_hash()
+    try:
+        c = json.loads(cache.read_text())
+        if c.get('key') != key:
+            c = {'key': key, 'ok': []}
+    except (OSError, ValueError):
+        c = {'key': key, 'ok': []}
+    gen_stems = ['Rbql.Theorems.' + st for st in GEN_FILES]
+    pending = [m for m in mods if m not in c['ok'] or m in gen_stems or 'Generated' in m]
+    if pending:
+        r = subprocess.run(['lake', 'env', 'leanchecker'] + pending, cwd=str(LEAN_DIR), stdout=subprocess.PIPE, stderr=subprocess.STDOUT, text=True)
+        if r.returncode != 0:
+            return {'modules': len(mods), 'ok': False, 'detail': r.stdout[-1500:]}
+        c['ok'] = sorted(set(c['ok']) | set(pending))
+        try:
+            cache.write_text(json.dumps(c))
+        except OSError:
+            pass
+    return {'modules': len(mods), 'ok': True, 'rechecked_now': len(pending)}
+
+
 def proof_status(prop, axioms):
     """(obligations, discharged, problems) for the theorems of one property."""
     names = theorem_names(prop)
